@@ -620,7 +620,7 @@ def run(ctx):
         mcs.append(("mc_walk", dict(n=4, l=3, mode="walk", usemin=usemin, reduce=reduce, maxd=1, maxextra=1, inv=INV_WALK)))
         mcs.append(("mc_repaired", dict(n=4, l=3, mode="lcas", usemin=False, reduce=True, maxd=1, inv=INV_LCAS + rep)))
     else:
-        mcs.append(("mc_repaired5", dict(n=5, l=3, mode="lcas", usemin=False, reduce=True, maxd=1, tiebreak="asc", inv=INV_LCAS + rep)))
+        mcs.append(("mc_repaired5", dict(n=5, l=2, mode="lcas", usemin=False, reduce=True, maxd=1, tiebreak="asc", inv=INV_LCAS + rep)))
         mcs.append(("mc_lcas5", dict(n=5, l=2, mode="lcas", usemin=usemin, reduce=reduce, maxd=1, tiebreak="asc", inv=INV_LCAS + exact)))
         mcs.append(("mc_ff5", dict(n=5, l=2, mode="ff", usemin=usemin, reduce=reduce, tiebreak="asc", inv=INV_FF + exact)))
         mcs.append(("mc_lcas4", dict(n=4, l=4, mode="lcas", usemin=usemin, reduce=reduce, maxd=3, inv=INV_LCAS + exact)))
